@@ -92,6 +92,14 @@ func roundTripCase(c *core.Ctx, idx int, mode int) {
 	}
 	tc := genType(c, idx, nil)
 	rec := c.Rec
+	if idx%11 == 6 && tc.typ.Kind() != reflect.Map {
+		// a struct whose only field of non-zero size is a pointer or a map: what Go keeps directly in an
+		// interface word, and what Marshal therefore has to treat specially when it is passed by value
+		if pt := pointerShaped(tc.typ, idx/11); tc.cfg.Validate(pt, "") == "" {
+			tc.typ = pt
+			rec.Count("pointer_shaped_types", 1)
+		}
+	}
 	var cerr error
 	if p := core.Guard(func() { _, cerr = tc.p.CodecForType(tc.typ) }); p != "" {
 		rec.Violation("codec-panic", fmt.Sprintf("CodecForType(%s) [%s] panicked: %s", typeString(tc.typ), tc.name, p), caseExtra(tc, reflect.Value{}, nil))
@@ -146,6 +154,15 @@ func roundTripCase(c *core.Ctx, idx int, mode int) {
 			rec.Sample(map[string]any{"config": tc.name, "type": typeString(tc.typ), "value": model.Show(v), "bytes": fmt.Sprintf("%x", data)})
 		}
 		// the same value through the long-lived instance of this configuration
+		if j%4 == 1 && !model.HasMultiMap(v) {
+			// passed by value, the value is the same value
+			bv, err, pn := marshal(tc.p, nil, v.Interface())
+			rec.Eval(1)
+			if err != nil || pn != "" || !bytes.Equal(bv, data) {
+				rec.Violation("round-trip", fmt.Sprintf("Marshal of the value passed by value gives other bytes than through a pointer [%s]: %v %s\n  type %s\n  value %s\n  by value   %s\n  by pointer %s", tc.name, err, trunc1(pn), typeString(tc.typ), model.Show(v), hexHead(bv), hexHead(data)), caseExtra(tc, v, data))
+				return
+			}
+		}
 		if sp := sharedInst(tc); j%3 == 0 {
 			sd, err, pn := marshal(sp, nil, ptrTo(v))
 			rec.Eval(1)
